@@ -73,6 +73,9 @@ pub fn check_locations(front: &Front, extra_sources: &[(PathBuf, String)]) -> Re
     for (path, text) in front.sources.iter().chain(extra_sources.iter()) {
         let p = path.display().to_string();
         let lines: Vec<&str> = text.split('\n').collect();
+        // ariadne also breaks lines at VT, FF, CR, NEL, LS and PS; with such characters present only
+        // a generous line bound is checked (the structured byte spans above are exact)
+        let exotic = text.chars().filter(|c| matches!(c, '\x0b' | '\x0c' | '\r' | '\u{85}' | '\u{2028}' | '\u{2029}')).count();
         let mut from = 0;
         while let Some(i) = plain[from..].find(&p) {
             let rest = &plain[from + i + p.len()..];
@@ -106,7 +109,11 @@ pub fn check_locations(front: &Front, extra_sources: &[(PathBuf, String)]) -> Re
             }
             for pair in nums.chunks(2) {
                 if let [l, c] = pair {
-                    let ok = *l >= 1 && *l <= lines.len() && *c >= 1 && *c <= lines[*l - 1].len() + 2;
+                    let ok = if exotic > 0 {
+                        *l >= 1 && *l <= lines.len() + exotic && *c >= 1 && *c <= text.len() + 2
+                    } else {
+                        *l >= 1 && *l <= lines.len() && *c >= 1 && *c <= lines[*l - 1].len() + 2
+                    };
                     if !ok {
                         return Err((
                             "line-col-outside-file".into(),
@@ -229,6 +236,9 @@ pub const REGRESSIONS: &[&str] = &[
     "_",
     "ret _",
     "ret 1 -/ garbage (((",
+    "\x0cA",
+    "A\r\nB",
+    "\u{2028}x",
 ];
 
 pub fn run(ctx: &Ctx) -> Report {
